@@ -144,9 +144,9 @@ def main():
                      "and proved to assemble global + item + user offset with the documented precedence (computeForItems_spec, assembled_is_score, histBias_is_model).")
             tech += " + per-run translation of BiasModel.learn proved equal to the model"
         if pid == "C04":
-            text += (" The array statements of __call__ of PopScorer, HPFScorer, FunkSVDScorer, ALSBase, BiasedSVDScorer and FlexMFScorerBase (the FlexMF family) are re-translated on every run (translate/py2lean_scatter.py → LK/Generated/ScatterC04.lean, "
+            text += (" The array statements of __call__ of PopScorer, HPFScorer, FunkSVDScorer, ALSBase, BiasedSVDScorer, FlexMFScorerBase (the FlexMF family) and the implicit bridge are re-translated on every run (translate/py2lean_scatter.py → LK/Generated/ScatterC04.lean, "
                      "combinators of LK/Model/ArrayOps.lean) and each translated __call__ is proved equal to the per-item map scoreList (LK/Proofs/ScatterC04.lean); the k-NN, FlexMF and implicit scorers remain measured only.")
-            tech = "Lean theorem on the scatter idiom + per-run translation of six scorer classes' array code proved equal to it + model-mediated metamorphic run over shipped scorers"
+            tech = "Lean theorem on the scatter idiom + per-run translation of seven scorer classes' array code proved equal to it + model-mediated metamorphic run over shipped scorers"
         if pid == "C03":
             text += (" The wiring of the pipelines topn_pipeline / predict_pipeline build is extracted on every run (translate/wiring_gen.py → LK/Generated/WiringC03.lean) and the value of its "
                      "recommender / rating-predictor nodes, with every component replaced by its model, is proved to be LK.Rec.recommend / fallbackMerge for all environments (LK/Proofs/WiringC03.lean).")
